@@ -2,7 +2,7 @@
 from driver import Inst
 
 O = dict(CONTENT=1, BEYOND=2, FLOW=4, TRIGGER=8, NOABORT=16, PROGRESS=32, END=64, REPEAT=128,
-         STORE=256, ACKCAD=512, FULLWIN=1024)
+         STORE=256, ACKCAD=512, FULLWIN=1024, RETRY=2048, REACK=4096)
 K_TIMEOUT, K_ACK, K_DATA, K_ERROR, K_OACK = 1, 2, 4, 8, 16
 ALLK = 31
 
@@ -33,24 +33,43 @@ def omask(*names):
     return m
 
 
+ANYNUM = 99999
+
+
+def spec(events, k, kinds, dlen):
+    """events: list of (kinds_mask, rel or None, dlen) or None -> k fully symbolic events"""
+    if events is None:
+        events = [(kinds, None, dlen)] * k
+    events = [tuple(e) + (None,) * (4 - len(e)) for e in events]
+    return "[" + ",".join("(%d, %d, %d, %d)" % (km, ANYNUM if rel is None else rel, dl, -1 if dt is None else dt)
+                          for km, rel, dl, dt in events) + "]", events
+
+
 def snd(name, w, blk, j, flen, rep=1, k=1, kinds=ALLK, oracle=0, b0=(0, 65535), hs=False, fs=False,
-        unw=None, timeout=900, family="snd_inject", mem_kb=None):
+        unw=None, timeout=900, family="snd_inject", mem_kb=None, events=None, tmo=0):
+    sp, events = spec(events, k, kinds, 0)
+    k = len(events)
     unw = unw or (max(w if w < 100 else 4, blk, rep, k + 1, 3) + 3)
-    inv = "snd_inject!(%s, %d, %d, %d, %d, %d, %d, %d, %d, %d, %d, %s, %s, %d);" % (
-        name, w, blk, j, flen, rep, k, kinds, oracle, b0[0], b0[1], "true" if hs else "false",
+    inv = "snd_inject!(%s, %d, %d, %d, %d, %d, %s, %d, %d, %d, %d, %s, %s, %d);" % (
+        name, w, blk, j, flen, rep, sp, tmo, oracle, b0[0], b0[1], "true" if hs else "false",
         "true" if fs else "false", unw)
     return Inst(name, "worker", inv, family, {
         "role": "sender", "W": w, "blksize": blk, "preloaded_blocks": j, "tail_len": flen, "repeat": rep,
-        "events": k, "event_kinds_mask": kinds, "oracle_mask": oracle, "start_block": "%d..=%d" % b0,
+        "events": k, "event_script(kinds_mask, number rel. to window front or any, payload)": events,
+        "oracle_mask": oracle, "start_block": "%d..=%d" % b0,
+        "negotiated_timeout": "symbolic 1..=255 s" if tmo == 0 else "%d s" % tmo,
         "handshake": hs, "from_start": fs, "unwind": unw}, timeout=timeout, mem_kb=mem_kb)
 
 
 def rcv(name, w, blk, j, flen, rep=1, k=1, kinds=ALLK, dlen=2, oracle=0, b0=(0, 65535), start=False,
-        unw=None, timeout=900, family="rcv_inject", mem_kb=None):
+        unw=None, timeout=900, family="rcv_inject", mem_kb=None, events=None, tmo=0):
+    sp, events = spec(events, k, kinds, dlen)
+    k = len(events)
     unw = unw or 12
-    inv = "rcv_inject!(%s, %d, %d, %d, %d, %d, %d, %d, %d, %d, %d, %d, %s, %d);" % (
-        name, w, blk, j, flen, rep, k, kinds, dlen, oracle, b0[0], b0[1], "true" if start else "false", unw)
+    inv = "rcv_inject!(%s, %d, %d, %d, %d, %d, %s, %d, %d, %d, %d, %s, %d);" % (
+        name, w, blk, j, flen, rep, sp, tmo, oracle, b0[0], b0[1], "true" if start else "false", unw)
     return Inst(name, "worker", inv, family, {
         "role": "receiver", "W": w, "blksize": blk, "buffered_blocks": j, "flushed_bytes": flen, "repeat": rep,
-        "events": k, "event_kinds_mask": kinds, "data_payload_len": dlen, "oracle_mask": oracle,
+        "events": k, "event_script(kinds_mask, number rel. to last in-order block or any, payload len)": events,
+        "oracle_mask": oracle,
         "last_inorder_block": "%d..=%d" % b0, "from_start": start, "unwind": unw}, timeout=timeout, mem_kb=mem_kb)
